@@ -299,6 +299,15 @@ def kwargs_rule(prog, run):
                     read.setdefault(c.args[0].value, set()).add(c.func.attr)
                 if isinstance(c, ast.Subscript) and isinstance(c.value, ast.Name) and c.value.id == kwname and isinstance(c.slice, ast.Constant):
                     read.setdefault(c.slice.value, set()).add("get")
+            pm = astq.parent_map(m.node)
+            for c in ast.walk(m.node):
+                if isinstance(c, ast.Call) and isinstance(c.func, ast.Attribute) and c.func.attr in ("pop", "popitem", "clear") and isinstance(c.func.value, ast.Name) and c.func.value.id == kwname:
+                    loop = astq.enclosing(pm, c, (ast.For, ast.While, ast.ListComp, ast.GeneratorExp, ast.DictComp, ast.SetComp))
+                    n += 1
+                    key = astq.src(c.args[0]) if c.args else ""
+                    run.ob("R-kwargs", m.qual, f"keyword {key} is taken from **{kwname} once, before any per-dataset loop", loop is None,
+                           f"`{astq.src(c, 50)}`" + ("" if loop is None else " runs inside a loop: the first iteration consumes the keyword, every later dataset silently gets the default"),
+                           witness=f"pop in loop {key}", file=f, node=c)
             for c in ast.walk(m.node):
                 if isinstance(c, ast.Call) and any(k.arg is None and isinstance(k.value, ast.Name) and k.value.id == kwname for k in c.keywords):
                     for k in c.keywords:
@@ -509,6 +518,8 @@ MUTANTS = [
     ("C14-m14 dt from the old fs (multi)", MU, "MultiSetup_PreGER.decimate_data", "dt = 1 / fs", "dt = 1 / self.fs"),
     ("C14-m15 detrend forgets datasets", MU, "MultiSetup_PreGER.detrend_data", "self.datasets = newdatasets", "pass"),
     ("C14-m16 Ts from initial sampling interval", MU, "MultiSetup_PreGER._initialize_data", "T = self.dt * Ndat", "T = Ndat"),
+    ("C14-m18 keyword popped inside the per-dataset loop", MU, "MultiSetup_PreGER.decimate_data", "super()._decimate_data(data=data, fs=self.fs, q=q, n=n, ftype=ftype, axis=axis, zero_phase=zero_phase, **kwargs)",
+     "super()._decimate_data(data=data, fs=self.fs, q=q, n=kwargs.pop('nn', n), ftype=ftype, axis=axis, zero_phase=zero_phase, **kwargs)"),
     ("C14-m17 augmented assignment on the user's data", SI, "SingleSetup.__init__", "self.fs = fs", "self.fs = fs\ndata -= data.mean(axis=0)"),
 ]
 REWRITES = [
